@@ -355,6 +355,52 @@ func main() {
 		done.Recv()
 	}, "true")
 
+	// a whole-object write (*p = T{}) after the object was handed to another
+	// goroutine through a lock-protected hand-over
+	run("race/whole-object-write-after-publish", 2, race, func(out *string) {
+		type obj struct{ a, b int }
+		o := &obj{}
+		var m vrt.Mutex
+		var shared *obj
+		done := vrt.MakeChan[bool](0)
+		vrt.Go(func() {
+			m.Lock()
+			p := shared
+			m.Unlock()
+			if p != nil {
+				_ = *vrt.Rd(&p.b, "obj.b")
+			}
+			done.Send(true)
+		})
+		m.Lock()
+		shared = o
+		m.Unlock()
+		*vrt.WrAll(o, "obj.*") = obj{} // reset after publishing
+		done.Recv()
+	}, " FAULT:data race on obj.b: write/read", "") // (empty: the reader saw shared == nil)
+	run("race/whole-object-write-before-publish", 2, race, func(out *string) {
+		type obj struct{ a, b int }
+		o := &obj{}
+		var m vrt.Mutex
+		var shared *obj
+		done := vrt.MakeChan[bool](0)
+		vrt.Go(func() {
+			m.Lock()
+			p := shared
+			m.Unlock()
+			if p != nil {
+				_ = *vrt.Rd(&p.b, "obj.b")
+			}
+			done.Send(true)
+		})
+		*vrt.WrAll(o, "obj.*") = obj{}
+		m.Lock()
+		shared = o
+		m.Unlock()
+		done.Recv()
+		*out = "ok"
+	}, "ok")
+
 	// determinism: the same vector twice gives the same trace
 	{
 		ex := mc.New(2)
